@@ -441,6 +441,16 @@ impl TransformerContext {
         self.scope_stack.push(scope);
     }
 
+    /// Open a scope which belongs to no element (its variables are set by `<var>` only).
+    pub fn push_scope(&mut self) {
+        self.ensure_scope();
+        self.scope_stack.push(Scope::default());
+    }
+
+    pub fn pop_scope(&mut self) {
+        self.scope_stack.pop();
+    }
+
     pub fn pop_element(&mut self) -> Option<SvgElement> {
         self.scope_stack.pop();
         self.element_stack.pop()
